@@ -87,6 +87,9 @@ func genExtensible(r *rng.R) *payload.Extensible {
 // genNotaryRequest builds a request that passes P2PNotaryRequest.isValid.
 func genNotaryRequest(r *rng.R, shape *[]string) *payload.P2PNotaryRequest {
 	main := genTx(r, txOpts{small: r.Bool()}, shape)
+	if len(main.Signers) == transaction.MaxAttributes {
+		main.Signers, main.Scripts = main.Signers[:15], main.Scripts[:15]
+	}
 	// exactly one NotaryAssisted with NKeys>0
 	attrs := main.Attributes[:0]
 	for _, a := range main.Attributes {
